@@ -496,6 +496,8 @@ class Interp:
         elif k == 'ret':
             raise _Ret(self.ev(s['e'], fn, this, env) if s.get('e') is not None else None)
         elif k == 'if':
+            if s.get('cv'):       # condition variable
+                self.stmt({'s': 'decl', 'vars': [s['cv']]}, fn, this, env, depth)
             cv = self.ev(s['c'], fn, this, env)
             c = to_int(cv)
             if c is None:
